@@ -238,6 +238,28 @@ var unstatedRules = map[string]string{
 	"name-case-variant":                 "names differing in letter case only: unique as strings",
 }
 
+// Scopes composed as <domain>/<repository> from two hand-labelled component alphabets, so that every
+// repository rule is exercised under every form of domain (registry host, host:port, single-label host,
+// the "local" pseudo domain the library's own message mentions). A scope with a valid domain and an
+// invalid repository is invalid for the repository's reason; with a valid repository it is valid.
+var scopeDomains = []string{"reg.io", "reg.io:5000", "localhost", "localhost:5000", "local", "registry.local"}
+
+var scopeRepos = []struct{ V, Bad string }{ // OCI distribution: lower-case alphanumerics joined by one of . _ __ -+, components joined by /
+	{"my-layout", ""},
+	{"a__b", ""},
+	{"a.b_c-d", ""},
+	{"x/y1", ""},
+	{"MyLayout", "upper-case-repository"},
+	{"my..layout", "repository-separator-run"},
+	{"a___b", "repository-separator-run"},
+	{"-a", "repository-leading-separator"},
+	{"a_", "repository-trailing-separator"},
+	{"...", "repository-separators-only"},
+	{"a//b", "repository-empty-component"},
+}
+
+var composedValidScopes []string
+
 var (
 	verTab    = map[string]verMember{}
 	levelTab  = map[string]levelMember{}
@@ -250,6 +272,14 @@ var (
 )
 
 func init() {
+	for _, d := range scopeDomains {
+		for _, r := range scopeRepos {
+			scopeAlphabet = append(scopeAlphabet, scopeMember{d + "/" + r.V, false, r.Bad})
+			if r.Bad == "" {
+				composedValidScopes = append(composedValidScopes, d+"/"+r.V)
+			}
+		}
+	}
 	for _, m := range verAlphabet {
 		verTab[m.V] = m
 	}
